@@ -83,7 +83,7 @@ def enc_wrap(tier, seed, path):
 
 def enc_hist_random(tier, seed, path):
     n = 200 if tier == 'quick' else 3000
-    return enc_gen.write(path, enc_gen.gen(seed + 1000, n, 'q', big=False))
+    return enc_gen.write(path, enc_gen.gen(seed + 1000, n, 'q', big=False, hist=True))
 
 
 ENC_BATCH = {'kind': 'mc', 'name': 'encbatch', 'module': 'MC_Enc', 'comp': 'enc', 'trace': 'TraceEnc',
@@ -92,6 +92,10 @@ ENC_BATCH = {'kind': 'mc', 'name': 'encbatch', 'module': 'MC_Enc', 'comp': 'enc'
 ENC_HIST = {'kind': 'mc', 'name': 'enchist', 'module': 'MC_Enc', 'comp': 'enc', 'trace': 'TraceEnc',
             'cfg': {'quick': 'MC_EncHist_quick.cfg', 'thorough': 'MC_EncHist_thorough.cfg'},
             'invariants': ['InvC01', 'InvC07', 'InvC08', 'InvC09', 'InvC10']}
+# every history (not only every transition) of a small alphabet: reaches state the specification does not have
+ENC_PATHS = {'kind': 'mc', 'name': 'encpaths', 'module': 'MC_Enc', 'comp': 'enc', 'trace': 'TraceEnc',
+             'cfg': {'quick': 'MC_EncPaths_quick.cfg', 'thorough': 'MC_EncPaths_thorough.cfg'},
+             'invariants': ['InvC09', 'InvC10']}
 ENC_RANDOM = {'kind': 'gen', 'name': 'encrandom', 'gen': enc_random, 'comp': 'enc', 'trace': 'TraceEnc'}
 ENC_WRAP = {'kind': 'gen', 'name': 'encwrap', 'gen': enc_wrap, 'comp': 'enc', 'trace': 'TraceEnc'}
 ENC_HRANDOM = {'kind': 'gen', 'name': 'enchrandom', 'gen': enc_hist_random, 'comp': 'enc', 'trace': 'TraceEnc'}
@@ -389,12 +393,12 @@ PROPS = {
             'rule': 'as C01 with lengths on both sides of every fit/no-fit boundary; monitor SegRules on the logged frames. '
                     'Non-trivial = distinct episodes in which at least one packet needed segmentation.',
             'assumptions': COMMON_ASSUMPTIONS},
-    'C09': {'level': 'model_checking', 'stages': [ENC_HIST, ENC_WRAP, ENC_HRANDOM], 'nontrivial_case': nt_enc_hist,
+    'C09': {'level': 'model_checking', 'stages': [ENC_HIST, ENC_PATHS, ENC_WRAP, ENC_HRANDOM], 'nontrivial_case': nt_enc_hist,
             'rule': 'MC_Enc/EncHist: every sequence of up to MaxOps operations {setDeviceId, setStreamId, restart, encode} '
                     '(edge dump: one path per transition), a 70000-frame history that wraps the counter, seeded random '
                     'histories; monitor CounterRule. Non-trivial = distinct histories of at least two operations after init containing an encode call (wrap_calls counts wrap crossings).',
             'assumptions': COMMON_ASSUMPTIONS},
-    'C10': {'level': 'model_checking', 'stages': [ENC_HIST, ENC_WRAP, ENC_HRANDOM], 'nontrivial_case': nt_enc_later_segmented,
+    'C10': {'level': 'model_checking', 'stages': [ENC_HIST, ENC_PATHS, ENC_WRAP, ENC_HRANDOM], 'nontrivial_case': nt_enc_later_segmented,
             'rule': 'as C09; every encode event also logs the frames of a fresh encoder with the same ids; monitor '
                     'SameUpToShift. Non-trivial = distinct histories whose second or later encode call needed segmentation.',
             'assumptions': COMMON_ASSUMPTIONS},
